@@ -1480,7 +1480,14 @@ private:
                                  ".add_constraints.add_disequation");
     for (auto kv : e) {
       variable_t pivot = kv.second;
-      interval_t i = compute_residual(e, pivot) / interval_t(kv.first);
+      interval_t residual = compute_residual(e, pivot);
+      interval_t coef(kv.first);
+      interval_t i = residual / coef;
+      // pivot != k only if coef*k is exactly the residual (the
+      // division may round, e.g., 2*x != 5 excludes no value of x).
+      if (!(i * coef == residual)) {
+        continue;
+      }
       if (auto k = i.singleton()) {
         if (!add_univar_disequation(pivot, *k)) {
           // already set to bottom
